@@ -1,6 +1,11 @@
 import JominiModel.Model.Writer
 import JominiModel.Spec.Writer
 import JominiModel.Proofs.Writer
+import JominiModel.Spec.WriterFlat
+import JominiModel.Proofs.WriterFlat
+import JominiModel.Spec.WriterNested
+import JominiModel.Proofs.WriterNested
+import JominiModel.Proofs.WriterParse
 /-
 C15 — Well-formed sequences of writer calls parse back to exactly what was written.
 Only property theorems live here; helper lemmas are in `Proofs/Writer.lean`, reference
@@ -185,17 +190,15 @@ theorem C15_error_state_unreachable (s s' : State) (c : Call) (hs : s.state ≠ 
   simpa [core] using this
 
 /-- Integers read back exactly: the decimal rendering of every `u64` converts back to the same
-value with the model of `Scalar::to_u64` (C11); every `u64` / `i64` / `i32` / `u32` rendering (in
-fact every magnitude below 10^20, `i64::MIN` included) is all digits after an optional `-` and has
-exactly the written value as its decimal value.  (The link of the signed case to the model of
-`Scalar::to_i64` is left to C11, whose model is being changed for the `i64::MIN` repair
-8327848; the implementation-side read-back through `to_i64` is checked by the L3 oracle for
-every integer call, `i64::MIN` included.) -/
+value with the model of `Scalar::to_u64`, the rendering of every `i64` — `i64::MIN` included
+(repaired in 8327848) — with the model of `Scalar::to_i64` (C11); in terms of plain decimal
+value, for every magnitude below 10^20. -/
 theorem C15_ints :
     (∀ n : Nat, n ≤ Scalar.U64_MAX → Scalar.toU64 (fmtNat n) = .ok n) ∧
+    (∀ i : Int, -(2 ^ 63) ≤ i → i ≤ 2 ^ 63 - 1 → Scalar.toI64 (fmtInt i) = .ok i) ∧
     (∀ n : Nat, n < 10 ^ 20 → allDigits (fmtNat n) = true ∧ decVal (fmtNat n) = n) ∧
     (∀ i : Int, i.natAbs < 10 ^ 20 → signedDecVal (fmtInt i) = i) := by
-  refine ⟨toU64_fmtNat, fun n h => ⟨(fmtNat_spec n h).1, (fmtNat_spec n h).2.1⟩, ?_⟩
+  refine ⟨toU64_fmtNat, toI64_fmtInt, fun n h => ⟨(fmtNat_spec n h).1, (fmtNat_spec n h).2.1⟩, ?_⟩
   intro i h
   unfold fmtInt
   by_cases hneg : i < 0
@@ -226,8 +229,8 @@ example : fmtInt (-1444) = [45, 49, 52, 52, 52] ∧ fmtNat 18446744073709551615 
     [49, 56, 52, 52, 54, 55, 52, 52, 48, 55, 51, 55, 48, 57, 53, 53, 49, 54, 49, 53] := by
   constructor <;> decide +kernel
 
-example : signedDecVal (fmtInt (-(2 ^ 63))) = -(2 ^ 63) :=
-  C15_ints.2.2 _ (by decide)
+example : Scalar.toI64 (fmtInt (-(2 ^ 63))) = .ok (-(2 ^ 63)) :=
+  C15_ints.2.1 _ (by decide) (by decide)
 
 /-- The flat-document instance of `C15_lexemes` (full statement below): root-level `key value`
 pairs written with `write_unquoted` and implicit `=` come out as exactly `k=v` lines separated
@@ -243,6 +246,96 @@ example : (run (flatCalls [([104, 101, 108, 108, 111], [119, 111, 114, 108, 100]
     [104, 101, 108, 108, 111, 61, 119, 111, 114, 108, 100, 10, 102, 111, 111, 61, 98, 97, 114] := by
   decide +kernel
 
+/-- `C15_lexemes` for flat documents with everything a field can carry: root-level fields whose
+key and value are `write_unquoted` or `write_quoted` calls (arbitrary payload bytes) with the `=`
+implicit, or any explicit `write_operator`.  The bytes written are exactly one
+`key<sep>value` line per field (`=` glued, every other operator with one space on both sides),
+lines separated by one `\n`, quoted payloads escaped between quotes, for every indent
+configuration. -/
+theorem C15_lexemes_flat (fs : List FField) (c : UInt8) (f : Nat) :
+    (run (fcalls fs) (State.init c f)).1.out = flatOut (fs.map FField.item) true := by
+  have := run_fcalls fs (State.init c f) rfl rfl rfl
+  simpa [State.init] using this
+
+/-- First end-to-end round trip (writer model → tape parser model of the text-tape slice): for
+every flat call list as above whose unquoted payloads are scalars of the text format
+(`Scal.Valid`; quoted payloads are arbitrary bytes), `TextTape.parse` of the written bytes
+succeeds and yields exactly the described tokens — keys, operators (none for `=`), values, with
+their quotedness, quoted payloads as `escape payload` — in order, nothing else.  (`hb`: the text
+does not begin with the three BOM bytes, i.e. the first key is not an unquoted scalar starting
+with EF BB BF, which the parser would strip.) -/
+theorem C15_parse_back_flat (fs : List FField) (c : UInt8) (f : Nat)
+    (hv : ∀ x ∈ fs, x.key.Valid ∧ x.val.Valid)
+    (hb : TextTape.hasBom (run (fcalls fs) (State.init c f)).1.out = false) :
+    ∃ T, TextTape.parse (run (fcalls fs) (State.init c f)).1.out = .ok T false ∧
+      T.map TextTape.Tok.erase = TextTape.contentFlat (fs.map fun x => x.item.content) := by
+  rw [C15_lexemes_flat] at hb ⊢
+  have hv' : ∀ it ∈ fs.map FField.item, it.key.Valid ∧ it.val.Valid := by
+    intro it hit
+    obtain ⟨x, hx, rfl⟩ := List.mem_map.1 hit
+    exact ⟨scall_valid _ (hv x hx).1, scall_valid _ (hv x hx).2⟩
+  obtain ⟨T, hp, he⟩ := parse_flatOut (fs.map FField.item) hv' hb
+  exact ⟨T, hp, by rw [he, List.map_map]; rfl⟩
+
+/-- `a="x\"y"` then `b < c`: payload with a quote, explicit operator; hypotheses hold and the
+parse-back is computed by the two models -/
+example :
+    TextTape.parse (run (fcalls [⟨.unq [97], none, .quo [120, 34, 121]⟩, ⟨.unq [98], some .lt, .unq [99]⟩])
+      (State.init 32 2)).1.out =
+    .ok [.unquoted ⟨14, [97]⟩, .quoted ⟨11, [120, 92, 34, 121]⟩, .unquoted ⟨5, [98]⟩, .operator .lt,
+         .unquoted ⟨1, [99]⟩] false := by
+  decide +kernel
+
+/-- `C15_lexemes` for nested objects, to any depth and for every indent byte and factor: a call
+list that writes root fields whose values are scalars (`write_unquoted` / `write_quoted`) or
+non-empty objects (`write_object_start … write_end`), with implicit or explicit operators, produces
+exactly `textRoot`: every field on its own line behind `depth × factor` indent bytes (none and no
+newline before the very first), `key<sep>value`, `{` directly after the separator, the closing
+`}` on its own line at the indentation of the enclosing level. -/
+theorem C15_lexemes_nested (fs : NFields) (c : UInt8) (f : Nat) :
+    (run (ncallsF fs) (State.init c f)).1.out = textRoot c f fs := by
+  cases fs with
+  | nil => rfl
+  | cons k o v r =>
+    have hi : Inv (State.init c f) c f 0 := ⟨rfl, rfl, rfl, by simp [State.init], rfl, rfl⟩
+    have := (runF c f (.cons k o v r) 0 (State.init c f) hi (Or.inl rfl) (by intro h; cases h)).1
+    simpa [State.init, textRoot] using this
+
+/-- `a={ b<"x" c={ d=e } }` with tab × 1 -/
+example : (run (ncallsF (.cons (.unq [97]) none
+      (.obj (.unq [98]) (some .lt) (.scal (.quo [120]))
+        (.cons (.unq [99]) none (.obj (.unq [100]) none (.scal (.unq [101])) .nil) .nil)) .nil))
+    (State.init 9 1)).1.out =
+    [97, 61, 123, 10, 9, 98, 32, 60, 32, 34, 120, 34, 10, 9, 99, 61, 123, 10, 9, 9, 100, 61, 101, 10, 9, 125, 10, 125] := by
+  decide +kernel
+
+/-- End-to-end round trip for nested objects (writer model → tape parser model): for every call
+list that writes root fields whose values are scalars or non-empty objects nested to any depth
+(`write_object_start … write_end`, implicit or explicit operators, `write_unquoted` /
+`write_quoted` with arbitrary quoted payloads), every indent factor and every indent byte the
+parser treats as blank (space, tab, …), `TextTape.parse` of the written bytes succeeds and
+yields exactly the described tape: keys, operators, scalars with their quotedness, and for
+every object an `Object{end}` token whose `end` is the index of its `End` token, which points
+back (`etoksF 0 fs`), in order, nothing else.  Hypotheses: the unquoted payloads are scalars
+of the text format; the text does not begin with the three BOM bytes. -/
+theorem C15_parse_back_nested (fs : NFields) (c : UInt8) (f : Nat)
+    (hc : TextTape.isBlank c = true) (hv : ValidF fs)
+    (hb : TextTape.hasBom (run (ncallsF fs) (State.init c f)).1.out = false) :
+    ∃ T, TextTape.parse (run (ncallsF fs) (State.init c f)).1.out = .ok T false ∧
+      T.map TextTape.Tok.erase = etoksF 0 fs := by
+  rw [C15_lexemes_nested] at hb ⊢
+  exact WriterParse.parse_textRoot c f hc fs hv hb
+
+/-- `a={ b<"x" c={ d=e } }`, tab × 1: the tape computed by the two models -/
+example : TextTape.parse (run (ncallsF (.cons (.unq [97]) none
+      (.obj (.unq [98]) (some .lt) (.scal (.quo [120]))
+        (.cons (.unq [99]) none (.obj (.unq [100]) none (.scal (.unq [101])) .nil) .nil)) .nil))
+    (State.init 9 1)).1.out =
+    .ok [.unquoted ⟨28, [97]⟩, .object 10 false, .unquoted ⟨23, [98]⟩, .operator .lt, .quoted ⟨18, [120]⟩,
+         .unquoted ⟨14, [99]⟩, .object 9 false, .unquoted ⟨8, [100]⟩, .unquoted ⟨6, [101]⟩, .endTok 6,
+         .endTok 1] false := by
+  decide +kernel
+
 /-
 Growth theorem, NOT proved in general (full statement kept; `C15_lexemes_partial` is its flat instance):
 
@@ -254,8 +347,11 @@ Growth theorem, NOT proved in general (full statement kept; `C15_lexemes_partial
   `TextLex` the lexer of the text format and `lexemesOf` the lexeme list the calls describe; and
   hence, with C01's `C01_faithful`, `parse (run cs _).out = tapeOf (docOf cs)`.
 
-  Missing: a lexer/parser model (owned by the text-tape slice) and the induction over the
-  grammar.  Until then the clause is decided on the real code: the harness re-parses the
+  Proved so far: flat documents (`C15_lexemes_flat`, `C15_parse_back_flat`) and nested objects
+  to any depth (`C15_lexemes_nested`, `C15_parse_back_nested`).  Missing: arrays
+  (`write_array_start`, and the object/array resolution of `write_start`), empty containers,
+  headers / rgb, the typed scalar calls (integers, dates, booleans: their text is modelled, what
+  is missing is only that it is a valid unquoted scalar) and `write_binary` forwarding.  Until then the clause is decided on the real code: the harness re-parses the
   output of every well-formed call list with `TextTape::from_slice` and compares it with an
   independent transcription of the described document (oracle kinds `wf-parse-back`,
   `wf-output-does-not-parse`, `wf-state`).
